@@ -71,6 +71,17 @@ def make_state(name="idle", script=None, spied=True):
     def idle(chart, e):
         sig = e.signal
         if sig == ENTRY or sig == EXIT or sig == INIT:
+            for a in script.get({ENTRY: "ENTRY_SIGNAL", EXIT: "EXIT_SIGNAL", INIT: "INIT_SIGNAL"}[sig], ()):
+                if a[0] == "call":
+                    a[1](chart, e)
+                elif a[0] == "post_fifo":
+                    chart.post_fifo(Event(signal=a[1], payload=a[2] if len(a) > 2 else None))
+                elif a[0] == "post_lifo":
+                    chart.post_lifo(Event(signal=a[1], payload=a[2] if len(a) > 2 else None))
+                elif a[0] == "subscribe":
+                    chart.subscribe(Event(signal=a[1]), queue_type=a[2] if len(a) > 2 else None)
+                elif a[0] == "publish":
+                    chart.publish(Event(signal=a[1], payload=a[2] if len(a) > 2 else None))
             return HANDLED
         if sig > 10:
             s = sched.ACTIVE
